@@ -184,6 +184,11 @@ def check_sentence_lines(ctx: Ctx) -> None:
     carried = flow.loop_carried(h)
     out_lists = {d.var for n in body for d in flow.defs_at[n] if d.kind == "mutate" and isinstance(d.value, ast.Call)
                  and isinstance(d.value.func, ast.Attribute) and d.value.func.attr == "extend"}
+    # `lines += wrapped` on a list is the same extension
+    for n in body:
+        if n.kind == "stmt" and isinstance(n.ast, ast.AugAssign) and isinstance(n.ast.op, ast.Add) and isinstance(n.ast.target, ast.Name) \
+                and any(d.kind == "assign" and isinstance(d.value, ast.List) for d in flow.defs if d.var == n.ast.target.id):
+            out_lists.add(n.ast.target.id)
     ctx.note("sentence_loop_carried", sorted(carried))
     # besides the output list: one-way switches ("first line") and append-only accumulators, whatever they are called
     from .common import unexpected_carried
@@ -208,6 +213,8 @@ def check_sentence_lines(ctx: Ctx) -> None:
                             continue
                         if isinstance(p, ast.Attribute) and p.attr == "extend":
                             continue
+                        if isinstance(p, ast.AugAssign) and p.target is sub and isinstance(p.op, ast.Add):
+                            continue  # lines += wrapped
                         # truthiness (`if lines and ...`, `not lines`): the same information as len(lines) > 0
                         if isinstance(p, (ast.BoolOp, ast.If, ast.While, ast.IfExp)) or (isinstance(p, ast.UnaryOp) and isinstance(p.op, ast.Not)) \
                                 or (isinstance(p, ast.Call) and isinstance(p.func, ast.Name) and p.func.id == "bool"):
@@ -220,7 +227,9 @@ def check_sentence_lines(ctx: Ctx) -> None:
                f"inside the loop the line list may only be touched as {L}[-1], len({L}) and {L}.extend(...): earlier lines are final once "
                f"written (diff locality); other uses: {bad}", where(lw, h))
         # merge statement guarded by the short-line test, and the pop paired with it
-        merges = [n for n in body if n.kind == "stmt" and isinstance(n.ast, ast.AugAssign) and norm(n.ast.target) == f"{L}[-1]"]
+        merges = [n for n in body if n.kind == "stmt" and ((isinstance(n.ast, ast.AugAssign) and norm(n.ast.target) == f"{L}[-1]") or (
+            isinstance(n.ast, ast.Assign) and len(n.ast.targets) == 1 and norm(n.ast.targets[0]) == f"{L}[-1]"
+            and isinstance(n.ast.value, ast.BinOp) and isinstance(n.ast.value.op, ast.Add) and norm(n.ast.value).startswith(f"{L}[-1] +")))]
         def removals(x: Node) -> int:
             """how many times the statement takes the first line off a list: X.pop(0), X = X[1:], del X[0]"""
             k_ = sum(1 for c in flow.calls_in(x) if isinstance(c.func, ast.Attribute) and c.func.attr == "pop")
@@ -236,7 +245,9 @@ def check_sentence_lines(ctx: Ctx) -> None:
 
         pops = [n for n in body if removals(n)]
         for mnode in merges:
-            edges = must_edges(flow.cfg, h, mnode) or set()
+            from .common import expand_flag_edges
+
+            edges = expand_flag_edges(flow, must_edges(flow.cfg, h, mnode) or set())
             short = any(b.kind == "test" and lab == "T" and "min_line_len" in norm(b.ast) and f"{L}[-1]" in norm(b.ast) for b, lab in edges)
             ctx.ob("R-SENT", f"{lw.qual} :: merge into {L}[-1] only when it is short", short,
                    "a sentence may join the previous line only if that line is shorter than the minimum line length", where(lw, mnode))
@@ -261,7 +272,8 @@ def check_sentence_lines(ctx: Ctx) -> None:
         ctx.ob("R-LOSSLESS-L4", f"{lw.qual} :: as many pops as merges on every path", bad_path is None,
                "on every path through the loop body the number of lines removed from `wrapped` must equal the number merged into the previous line",
                where(lw, h), [f"{x.lineno}: {x.text()}" for x in (bad_path or [])])
-        exts = [n for n in body if any(isinstance(c.func, ast.Attribute) and c.func.attr == "extend" for c in flow.calls_in(n))]
+        exts = [n for n in body if any(isinstance(c.func, ast.Attribute) and c.func.attr == "extend" for c in flow.calls_in(n))
+                or (n.kind == "stmt" and isinstance(n.ast, ast.AugAssign) and isinstance(n.ast.target, ast.Name) and n.ast.target.id == L)]
         for en in exts:
             edges = {(b, lab) for b, lab in (must_edges(flow.cfg, h, en) or set()) if b is not h}
             ctx.ob("R-LOSSLESS-L4", f"{lw.qual} :: every wrapped line is added to the output", not edges,
@@ -1303,6 +1315,8 @@ def check_sentence_split(ctx: Ctx) -> None:
         this = False
         for h in heads:
             it = expand_expr(prog, f, h.ast.iter, h)
+            while isinstance(it, ast.Call) and isinstance(it.func, ast.Name) and it.func.id in ("enumerate", "iter", "list", "tuple") and it.args:
+                it = it.args[0]  # for i, w in enumerate(words): the same words, in the same order
             if is_ws_split(it):
                 this = True
             elif isinstance(it, ast.Name) and it.id in binding:
